@@ -345,6 +345,14 @@ Definition C10_round (c : ccfg) (k : cache) (parent : json) (evs : list ev) : op
                                                  is_deleting (e_pre e')
                                     | None => false end) seen
               then Some "child-touched-after-finalizer-removed-from-dying-parent" else
+              (* ... or that a read of this sync has shown dying without the finalizer (an earlier sync took it off) *)
+              if has_finalize c &&
+                 existsb (fun e' => match is_api e', e_ans e' with
+                                    | Some q', AObj o => targets_parent c parent q' && verb_eqb (q_verb q') VGet &&
+                                                         String.eqb (get_uid o) (get_uid parent) &&
+                                                         is_deleting o && negb (has_finalizer o fin)
+                                    | _, _ => false end) seen
+              then Some "child-touched-for-dying-parent-seen-without-finalizer" else
               match q_verb q with
               | VCreate =>
                   (* the finalizer is on the parent as cached, or as an earlier read or write of this sync returned it *)
